@@ -83,6 +83,8 @@ trait Cont: zeroize::Zeroize + Bytes + MutBytes + NewBytes + Default + Clone + L
     fn from_slice_lockedro(_s: &[u8]) -> Option<Result<LockedRO<Self>, dryoc::Error>> { None }
     /// serde decode of an encoding that carries `payload` into the locked form of the container
     fn serde_locked(_fmt: &str, _payload: &[u8]) -> Option<Result<Locked<Self>, ()>> { None }
+    /// `StackByteArray::<N>::mlock()`: a stack array moved into locked heap memory
+    fn stack_lock(_fill: u8) -> Option<Result<Locked<Self>, std::io::Error>> { None }
 }
 fn serde_encode(fmt: &str, payload: &[u8]) -> Vec<u8> {
     if fmt == "json" {
@@ -107,6 +109,7 @@ impl Cont for HeapBytes {
     fn from_slice_lockedro(s: &[u8]) -> Option<Result<LockedRO<Self>, dryoc::Error>> { Some(HeapBytes::from_slice_into_readonly_locked(s)) }
 }
 impl<const N: usize> Cont for HeapByteArray<N> {
+    fn stack_lock(fill: u8) -> Option<Result<Locked<Self>, std::io::Error>> { Some(StackByteArray::<N>::from([fill; N]).mlock()) }
     fn serde_locked(fmt: &str, payload: &[u8]) -> Option<Result<Locked<Self>, ()>> { Some(serde_decode::<Locked<HeapByteArray<N>>>(fmt, &serde_encode(fmt, payload))) }
     fn from_slice_locked(s: &[u8]) -> Option<Result<Locked<Self>, dryoc::Error>> { Some(HeapByteArray::<N>::from_slice_into_locked(s)) }
     fn from_slice_lockedro(s: &[u8]) -> Option<Result<LockedRO<Self>, dryoc::Error>> { Some(HeapByteArray::<N>::from_slice_into_readonly_locked(s)) }
@@ -189,6 +192,27 @@ fn child_probe(f: impl FnOnce()) -> &'static str {
     }
 }
 
+/// the free()-scanning shim (interpose/free_scan.c), when it is preloaded
+fn free_scan_enable(on: bool) -> bool {
+    unsafe {
+        let sym = libc::dlsym(libc::RTLD_DEFAULT, b"verif_free_scan_enable\0".as_ptr() as *const _);
+        if sym.is_null() { return false; }
+        let f: unsafe extern "C" fn(i32) = std::mem::transmute(sym);
+        f(on as i32);
+        true
+    }
+}
+fn free_scan_take() -> Vec<(usize, usize, usize)> {
+    unsafe {
+        let sym = libc::dlsym(libc::RTLD_DEFAULT, b"verif_free_scan_take\0".as_ptr() as *const _);
+        if sym.is_null() { return vec![]; }
+        let f: unsafe extern "C" fn(*mut usize, *mut usize, *mut usize, i32) -> i32 = std::mem::transmute(sym);
+        let (mut a, mut b, mut c) = ([0usize; 64], [0usize; 64], [0usize; 64]);
+        let k = f(a.as_mut_ptr(), b.as_mut_ptr(), c.as_mut_ptr(), 64) as usize;
+        (0..k).map(|i| (a[i], b[i], c[i])).collect()
+    }
+}
+
 type SetFail = unsafe extern "C" fn(i64);
 fn set_fail_from(k: i64) -> bool {
     unsafe {
@@ -207,6 +231,7 @@ fn run<A: Cont>(len: usize, toks: &[&str]) -> String {
     dryoc::protected::verif_hooks::set_release_observer(Some(observer));
     RELEASES.lock().unwrap().clear();
     set_fail_from(-1);
+    let scanning = free_scan_enable(true);
     let base_lck = vmlck_kb();
     let mut slots: Vec<Slot<A>> = vec![];
     let mut out: Vec<String> = vec![];
@@ -366,6 +391,13 @@ fn run<A: Cont>(len: usize, toks: &[&str]) -> String {
                         None => "n/a".into(),
                     }
                 }
+                "stacklock" => {
+                    match A::stack_lock(0x5a) {
+                        Some(Ok(r)) => { let mut s = Slot { r: Reg::LR(r), ptr: 0, len: 0 }; s.refresh(); slots.push(s); "ok".into() }
+                        Some(Err(_)) => "err".into(),
+                        None => "n/a".into(),
+                    }
+                }
                 "newlocked" | "genlocked" | "newrolocked" | "genrolocked" => {
                     let r: Result<Reg<A>, std::io::Error> = match name {
                         "newlocked" => A::new_locked().map(Reg::LR),
@@ -420,13 +452,15 @@ fn run<A: Cont>(len: usize, toks: &[&str]) -> String {
         }
         let lck = vmlck_kb() as i64 - base_lck as i64;
         let rel: Vec<String> = RELEASES.lock().unwrap().drain(..).map(|(_, sz, nz)| format!("{}:{}", sz, nz)).collect();
-        out.push(format!("{} lck={} rel={}", parts.join("/"), lck, if rel.is_empty() { "-".to_string() } else { rel.join("+") }));
+        let fr = if scanning { let e = free_scan_take(); format!(" fr={}", if e.is_empty() { "-".to_string() } else { e.iter().map(|(s, n, u)| format!("{}:{}:{}", s, n, u)).collect::<Vec<_>>().join("+") }) } else { String::new() };
+        out.push(format!("{} lck={} rel={}{}", parts.join("/"), lck, if rel.is_empty() { "-".to_string() } else { rel.join("+") }, fr));
     }
     // final teardown: drop everything and report the residue
     slots.clear();
     let lck = vmlck_kb() as i64 - base_lck as i64;
     let rel: Vec<String> = RELEASES.lock().unwrap().drain(..).map(|(_, sz, nz)| format!("{}:{}", sz, nz)).collect();
-    out.push(format!("end lck={} rel={}", lck, if rel.is_empty() { "-".to_string() } else { rel.join("+") }));
+    let fr = if scanning { let e = free_scan_take(); free_scan_enable(false); format!(" fr={}", if e.is_empty() { "-".to_string() } else { e.iter().map(|(s, n, u)| format!("{}:{}:{}", s, n, u)).collect::<Vec<_>>().join("+") }) } else { String::new() };
+    out.push(format!("end lck={} rel={}{}", lck, if rel.is_empty() { "-".to_string() } else { rel.join("+") }, fr));
     set_fail_from(-1);
     #[cfg(feature = "hooks")]
     dryoc::protected::verif_hooks::set_release_observer(None);
